@@ -351,7 +351,81 @@ func init() {
 				}
 			}
 		}
+		// ---- two scrapes overlapping in time (Prometheus scrapes targets concurrently): scrape B runs
+		// completely while scrape A is in the middle of its body; both must stay byte exact ------------
+		if c.Part == 0 {
+			pa, pb := payloads["70KiB"], append([]byte("# target b\n"), payloads["mix200"]...)
+			for _, gzipOn := range []bool{false, true} {
+				for _, at := range []int{0, 1, 5000} { // how many bytes of A's wire stream are delivered before B runs
+					idx++
+					wa, wbb := pa, pb
+					if gzipOn {
+						wa, wbb = gz(pa), gz(pb)
+					}
+					var nestedW *shortWriter
+					nested := func() {
+						nestedW = &shortWriter{hdr: http.Header{}}
+						func() {
+							defer func() {
+								if rec := recover(); rec != nil && rec != http.ErrAbortHandler {
+									panic(rec)
+								}
+							}()
+							sc.Px.ServeHTTP(nestedW, httptest.NewRequest("GET", rig.ProxyURL("j1", 999, "http", "tb:80", "/metrics", nil), nil))
+						}()
+					}
+					net.Serve = func(req *http.Request) rig.Answer {
+						if req.URL.Hostname() == "tb" {
+							return rig.Answer{Gzip: gzipOn, BodyReader: func() io.ReadCloser { return &chunkReader{data: wbb} }}
+						}
+						return rig.Answer{Gzip: gzipOn, BodyReader: func() io.ReadCloser {
+							return &hookReader{chunkReader: chunkReader{data: wa, sched: []int{at + 1}}, after: at, hook: nested}
+						}}
+					}
+					// a completed scrape first (state left behind by earlier scrapes matters)
+					w0 := &shortWriter{hdr: http.Header{}}
+					sc.Px.ServeHTTP(w0, httptest.NewRequest("GET", rig.ProxyURL("j1", 999, "http", "tb:80", "/metrics", nil), nil))
+					wA := &shortWriter{hdr: http.Header{}}
+					func() {
+						defer func() {
+							if rec := recover(); rec != nil && rec != http.ErrAbortHandler {
+								panic(rec)
+							}
+						}()
+						sc.Px.ServeHTTP(wA, httptest.NewRequest("GET", rig.ProxyURL("j1", 1, "http", "ta:80", "/metrics", nil), nil))
+					}()
+					r.States++
+					r.Transitions += 3
+					r.Nontrivial++
+					cs := c12Case{Payload: "70KiB with a nested scrape of another target", Len: len(pa), Gzip: gzipOn, Assigned: true, Sched: []int{at}}
+					if !bytes.Equal(wA.buf.Bytes(), pa) || (nestedW != nil && !bytes.Equal(nestedW.buf.Bytes(), pb)) || nestedW == nil || !bytes.Equal(w0.buf.Bytes(), pb) {
+						nb := -1
+						if nestedW != nil {
+							nb = nestedW.buf.Len()
+						}
+						r.Violate("C12:bytes:overlapping-scrapes", "byte-for-byte", fmt.Sprintf("gzip=%v: outer scrape forwarded %d of %d bytes, nested scrape %d of %d bytes (nested after %d wire bytes)", gzipOn, wA.buf.Len(), len(pa), nb, len(pb), at), idx,
+							&c12Replay{Property: "C12", Clause: "byte-for-byte", Case: cs})
+					}
+				}
+			}
+		}
 	})
+}
+
+// hookReader runs hook once after `after` bytes have been delivered.
+type hookReader struct {
+	chunkReader
+	after int
+	hook  func()
+	done  bool
+}
+
+func (h *hookReader) Read(p []byte) (int, error) {
+	if !h.done && h.pos >= h.after {
+		h.done = true
+		h.hook()
+	}
+	return h.chunkReader.Read(p)
 }
 
 func repeatInt(v, n int) []int {
